@@ -29,6 +29,10 @@ CHECKS = {
          "generated-input search (enumerated lengths + seeded structured tapes) against an independent CRC-24/base64/line-structure oracle, metamorphic tolerance variants, accept-iff-match CRC decision",
          "exploration: every payload length 0..700 (thorough 0..4096, sampled to 1 MiB) x block type x header map x checksum x read schedule x consumer; writer output validated by an independent armor structure parser; reader compared with the original triple",
          "trusts the harness' own bitwise CRC-24, base64 codec and line parser; cannot show absence outside the explored lengths/headers"),
+ "C11": ("DESIGN.md §4 C11",
+         "generated-input search over the signature-type x version x hash x subpacket-set x object matrix with a differential oracle: digest captured by a recording signer / recording verifier vs the RFC 9580 5.2.4 digest computed independently from the emitted packet (decoded by an own decoder); plus signatures assembled entirely by the reference (raw ed25519-dalek) that must verify in rPGP",
+         "exploration: 12 signature types x v4/v6 x 6 hashes x 12 signer algorithms x hashed areas from empty to >64 KiB, documents (binary and canonicalized text), keys of all zoo algorithms (bodies >255 octets), user ids (empty, long, multi-byte), user attributes; both the sign side and the verify side of rPGP are compared with the reference; v3/v4/v6 reference-made signatures verified detached and as prefixed messages",
+         "cross-version certifications are not asserted (RFC wording ambiguous); key packet bodies come from rPGP's serializer, whose fidelity is C05's subject"),
  "C12": ("DESIGN.md §4 C12",
          "bidirectional differential generated-input search against an independent composition of the RustCrypto primitives written from RFC 9580 (hand-written CFB, SEIPDv1/v2 framing, HKDF info strings, S2K, SKESK v4/v6, secret-key CFB/AEAD protection, RFC 3394 key wrap, ECDH KDF + padding, X25519/X448 HKDF), anchored at start-up to the RFC 9580 A.9-A.11 sample messages and the RFC 3394 vector",
          "exploration: every coded S2K count 0..255 (with password lengths around salt+password = octet count) + random S2K points; SEIPDv1 x 11 ciphers (in-memory, streaming, message level); SEIPDv2 x 9 pairs x chunk sizes x 0..3 chunks; SKESK v4 (derived / encrypted session key) and v6; secret-key protection usage 254/253 for 7 zoo keys; PKESK v3/v6 for RSA, ECDH cv25519/P-256/P-384/P-521, X25519, X448 (rPGP -> reference for all, reference -> rPGP for cv25519, P-256, X25519)",
